@@ -4,6 +4,8 @@ package interp
 // trace, obligations.
 
 import (
+	"context"
+	"time"
 	"fmt"
 	"os/exec"
 	"sort"
@@ -434,13 +436,15 @@ func (px *pathCtx) portfolio(extra string) (string, string) {
 		{"cvc5", "--lang=smt2", "--solve-bv-as-int=sum", fmt.Sprintf("--tlimit=%d", px.i.cfg.QueryTimeoutMs)},
 	}
 	ch := make(chan ans, len(backends))
+	ctx, cancelAll := context.WithCancel(context.Background())
+	defer cancelAll() // stops a back end that is still running when the answer is in
 	for _, be := range backends {
 		go func(be []string) {
 			pre := ""
 			if be[0] == "cvc5" {
 				pre = "(set-logic ALL)\n"
 			}
-			out := runOnce(be, pre+script)
+			out := runOnce(ctx, be, pre+script)
 			r := "unknown"
 			for _, line := range strings.Split(out, "\n") {
 				line = strings.TrimSpace(line)
@@ -461,11 +465,20 @@ func (px *pathCtx) portfolio(extra string) (string, string) {
 		}(be)
 	}
 	result := ans{"unknown", ""}
-	for range backends {
-		a := <-ch
+	// After the first definite answer the other back end gets a short grace
+	// period (its answer is only used to detect a disagreement).
+	var grace <-chan time.Time
+	for k := 0; k < len(backends); k++ {
+		var a ans
+		select {
+		case a = <-ch:
+		case <-grace:
+			return result.res, result.who
+		}
 		if a.res == "sat" || a.res == "unsat" {
 			if result.res == "unknown" {
 				result = a
+				grace = time.After(1500 * time.Millisecond)
 			} else if result.res != a.res {
 				return "unknown", "solver disagreement"
 			}
@@ -615,8 +628,8 @@ func sortedKeys(m map[string]bool) []string {
 	return ks
 }
 
-func runOnce(argv []string, input string) string {
-	cmd := exec.Command(argv[0], argv[1:]...)
+func runOnce(ctx context.Context, argv []string, input string) string {
+	cmd := exec.CommandContext(ctx, argv[0], argv[1:]...)
 	cmd.Stdin = strings.NewReader(input)
 	out, _ := cmd.CombinedOutput()
 	return string(out)
